@@ -141,7 +141,7 @@ def texture(rng, kind, n):
 
 def gen_textures(chk, tier):
     rng = np.random.default_rng(chk.seed)
-    sizes = [2, 3, 5, 10, 30, 60, 120, 200]
+    sizes = [2, 3, 5, 10, 20, 40, 80] if tier == "quick" else [2, 3, 5, 10, 30, 60, 120, 200]
     kinds = ["random", "clustered", "tight", "single"]
     out = []
     total = 120 if tier == "quick" else 480
@@ -152,6 +152,9 @@ def gen_textures(chk, tier):
         n = sizes[(i // 24 + i) % len(sizes)]
         out.append(dict(system=sysname, kind=kind, n=n, os=texture(rng, kind, n)))
         i += 1
+    if tier == "quick":  # the upper end of the size range, for the systems with few operators
+        out[-2:] = [dict(system="triclinic", kind="clustered", n=200, os=texture(rng, "clustered", 200)),
+                    dict(system="orthorhombic", kind="random", n=200, os=texture(rng, "random", 200))]
     return out
 
 
@@ -320,31 +323,41 @@ def correspondence(chk, tier):
                       expect_vec(bad, dict(meta, what="misorientation_hist density"), ("OK", flat(hh[1][0])), rtol=1e-12))
                 if not np.array_equal(hh[1][1], np.arange(st._max_misorientation(s) + 1.0)):
                     bad.append((meta, "bin edges are not 0, 1, ..., theta_max"))
-            # (b) pair angles from the recorded quaternions (binary64 model vs float32 code)
-            def hang(m, angs=angs, meta=meta, r=r, k=k, n=n, npairs=npairs):
+            # (b) + (c) pair angles and index from the recorded quaternions, full model path
+            #     (binary64 model vs the code's float32 storage of the operator-multiplied quaternions)
+            def check_angles(ma, angs, meta, npairs):
                 nonlocal near_total
-                if m[0] != "OK" or len(m[1]) != npairs:
-                    bad.append((dict(meta, what="pair angles"), f"model {m[0]} / {len(m[1]) if m[0] == 'OK' else m[1]} angles, implementation {npairs}"))
-                    return
-                ma = np.array(m[1])
+                if len(ma) != npairs:
+                    bad.append((dict(meta, what="pair angles"), f"model {len(ma)} angles, implementation {npairs}"))
+                    return None
+                ma = np.array(ma)
                 d = np.abs(np.cos(np.radians(ma / 2)) - np.cos(np.radians(angs / 2)))
                 if d.max() > 2e-6:
                     j = int(d.argmax())
                     bad.append((dict(meta, what="pair angles"), f"pair {j}: implementation {float(angs[j])!r} (float32 storage) vs model {float(ma[j])!r}"))
                 moved = int((np.floor(ma) != np.floor(angs)).sum())
                 near_total += moved
-                meta["moved"] = moved
-            B.add("angles", [variant, k, n], flat(q), hang)
-            # (c) full model path
-            def hfull(m, meta=meta, r=r, npairs=npairs):
+                return moved
+
+            def hfull(m, angs=angs, meta=meta, r=r, npairs=npairs):
                 if r[0] == "ERR" or m[0] == "ERR":
                     if not (r[0] == m[0] and r[1] == m[1]):
-                        bad.append((dict(meta, what="full path"), f"implementation {r} vs model {m}"))
+                        bad.append((dict(meta, what="full path"), f"implementation {r} vs model {m if m[0] == 'ERR' else 'OK'}"))
                     return
-                tol = meta.get("moved", 0) / npairs + 1e-9
+                moved = check_angles(m[1][1:], angs, meta, npairs)
+                if moved is None:
+                    return
+                tol = moved / npairs + 1e-9
                 if abs(float(r[1]) - m[1][0]) > tol:
                     bad.append((dict(meta, what="full path"), f"implementation {float(r[1])!r} vs model {m[1][0]!r} (tolerance {tol:.2e})"))
-            B.add("mindex", [variant, k, n], flat(q), hfull)
+            B.add("mindex_full", [variant, k, n], flat(q), hfull)
+            if r[0] == "ERR":  # the index raises (rhombohedral): still compare the pair angles
+                def hang(m, angs=angs, meta=meta, npairs=npairs):
+                    if m[0] != "OK":
+                        bad.append((dict(meta, what="pair angles"), f"model {m}"))
+                    else:
+                        check_angles(m[1], angs, meta, npairs)
+                B.add("angles", [variant, k, n], flat(q), hang)
     B.run()
     chk.cov["near_discontinuity"] = near_total
     chk.cov["traces_validated_against_impl"] = len(B.lines)
@@ -529,7 +542,7 @@ def run(chk):
         "process pools (misorientation_indices) are outside the model: batched_is_map is about the model of imap as an order-preserving map; equality and order under 1..4 [thorough 1..16] workers and an external pool are measured at run time only",
     ]
     chk.cov["rule"] = ("textures: 120 [thorough 480] = 6 lattice systems x {random (Haar), clustered (sigma 0.5 rad), tight (0.08 rad), single orientation} x "
-                       "n_grains in {2,3,5,10,30,60,120,200}; plus every unit bin and random / invalid (low, high) of misorientations_random for all systems, "
+                       "n_grains in {2,3,5,10,20,40,80} and two textures of 200 grains [thorough: {2,...,120,200} for every system]; plus every unit bin and random / invalid (low, high) of misorientations_random for all systems, "
                        "operator tables, misorientation_angles on random binary64 quaternion arrays (incl. zero angles), 50 quaternion products, "
                        "batched stacks of 1..8 [thorough ..40] snapshots x worker counts.  distinct = distinct (function, system, input bytes); "
                        "non-trivial = not a single-orientation texture / a result that is not an error")
